@@ -22,7 +22,8 @@ pub const ENTRY: Entry = Entry {
     rule: "TestImage drawn (a) on a clipping framebuffer target that implements only draw_iter and records every pixel and every \
            out-of-bounds attempt: all sizes 0..=96 squared (thorough 0..=200) plus strips up to 65535, for Rgb565/Rgb666/Rgb888; (b) \
            through the real Display for windows 32x32..40x35 of a 40x35 framebuffer in all 8 orientations and for built-in 128x160 and \
-           240x320 panels, decoded by the reference controller and compared with (a). Oracle: never panics; for >= 32x32: every pixel \
+           240x320 panels and for every built-in model x {3 orientations, 2 colour orders, 2 inversions, reset pin given before/after the options/absent}, also after clear + set_orientation, decoded by the reference controller, \
+           transformed to what a viewer sees (red/blue exchanged when the controller's colour order bit differs from the configured one, complemented when the inversion differs) and compared with (a). Oracle: never panics; for >= 32x32: every pixel \
            painted, outermost rows/columns pure white and the ring inside it not white, every interior row filtered to pure R/G/B \
            pixels reads R*G*B* with all three present in some row, and the picture differs from each of its rotated/mirrored versions \
            of equal dimensions. Non-trivial = sizes >= 32x32.",
@@ -270,6 +271,28 @@ fn check_display_after(ctx: &Ctx, acc: &mut Acc, cfg: &Cfg, prefix: &[Op]) {
             px.push(rig.ctl.mem.get(cx, cy));
         }
     }
+    // what a viewer sees: a panel whose colour order / inversion setting disagrees with the configured one shows red
+    // and blue exchanged / complementary colours
+    let swap = (rig.ctl.madctl & 0x08 != 0) != cfg.bgr;
+    let inv = rig.ctl.inverted != cfg.invert;
+    if swap || inv {
+        let (mr, mg) = if cfg.c666() { (63u32, 63u32) } else { (31, 63) };
+        for p in px.iter_mut() {
+            if *p == UNWRITTEN {
+                continue;
+            }
+            let (mut r, mut g, mut b) = (*p >> 16 & 0xFF, *p >> 8 & 0xFF, *p & 0xFF);
+            if swap {
+                std::mem::swap(&mut r, &mut b);
+            }
+            if inv {
+                r = mr - r;
+                g = mg - g;
+                b = mr - b;
+            }
+            *p = r << 16 | g << 8 | b;
+        }
+    }
     let (pal, reference) = if cfg.c666() {
         (palette::<Rgb666>(), draw_on_target::<Rgb666>(lw, lh).map(|f| f.px))
     } else {
@@ -323,6 +346,21 @@ fn run(ctx: &Ctx) -> Part {
     for (m, win) in [(0u8, None), (2, None), (12, Some((135u16, 240u16, 52u16, 40u16))), (11, Some((128, 128, 2, 1)))] {
         for o in [0u8, 1, 6] {
             cfgs.push(Cfg { model: ModelId::Builtin(m), tr: Transport::RecSerial, win, orient: o, bgr: false, invert: false, refresh: 0, rst: false, flags: 0 });
+        }
+    }
+    // every built-in model with non-default colour order / inversion / orientation, options given before or after the
+    // reset pin in the builder chain: the picture as a viewer sees it (colour order and inversion of the controller
+    // against the configured ones) still passes the diagnosis
+    for (i, info) in BUILTINS.iter().enumerate() {
+        let tr = if info.supports[0] { Transport::RecSerial } else { Transport::RecPar8 };
+        for o in [0u8, 3, 6] {
+            for bgr in [false, true] {
+                for invert in [false, true] {
+                    for (rst, flags) in [(false, 0u8), (true, F_OPTS_FIRST), (true, 0)] {
+                        cfgs.push(Cfg { model: ModelId::Builtin(i as u8), tr, win: Some((33, 32, 1, 2)), orient: o, bgr, invert, refresh: 0, rst, flags });
+                    }
+                }
+            }
         }
     }
     let b = cfgs
